@@ -583,6 +583,79 @@ func installStdlib(m *Machine) {
 		}
 		return unknownCall("slices.Sorted", args), nil
 	}
+	// sort.Slice with a less function over concrete keys: a stable insertion sort driven by the closure
+	for _, name := range []string{"sort.Slice", "sort.SliceStable"} {
+		name := name
+		m.Ext[name] = func(m *Machine, pos token.Pos, recv Value, args []Value) (Value, error) {
+			if len(args) != 2 {
+				return nil, undecided(pos, "%s arity", name)
+			}
+			l, ok := args[0].(*List)
+			if !ok {
+				if _, isNil := args[0].(NilV); isNil {
+					return NilV{}, nil
+				}
+				return nil, undecided(pos, "%s of %s", name, Show(args[0]))
+			}
+			// the closure indexes the slice it captured, which is this very list: sort in place by
+			// adjacent swaps so that the closure always sees the current order
+			n := len(l.Elems)
+			for i := 1; i < n; i++ {
+				for j := i; j > 0; j-- {
+					v, err := m.Call(pos, args[1], []Value{int64(j), int64(j - 1)})
+					if err != nil {
+						return nil, err
+					}
+					less, ok := v.(bool)
+					if !ok {
+						return nil, undecided(pos, "%s: the order of two elements is not determined by the abstract values", name)
+					}
+					if !less {
+						break
+					}
+					l.Elems[j], l.Elems[j-1] = l.Elems[j-1], l.Elems[j]
+				}
+			}
+			return NilV{}, nil
+		}
+	}
+	m.Ext["strings.NewReplacer"] = func(m *Machine, pos token.Pos, recv Value, args []Value) (Value, error) {
+		c, ok := concreteArgs(args)
+		if !ok {
+			return &Unknown{Why: "strings.NewReplacer with symbolic arguments"}, nil
+		}
+		m.seq++
+		return &Opaque{Kind: "strings.Replacer", ID: fmt.Sprintf("replacer%d", m.seq), GoType: "*strings.Replacer", Attrs: map[string]Value{"pairs": strList(c)}}, nil
+	}
+	m.Ext["(strings.Replacer).Replace"] = func(m *Machine, pos token.Pos, recv Value, args []Value) (Value, error) {
+		o, ok := recv.(*Opaque)
+		if ok && len(args) == 1 {
+			if pl, ok := o.Attrs["pairs"].(*List); ok {
+				if pairs, ok := concreteArgs(pl.Elems); ok {
+					if c, ok := concreteArgs(args); ok {
+						return Lit(strings.NewReplacer(pairs...).Replace(c[0])), nil
+					}
+				}
+			}
+		}
+		return unknownCall("strings.Replacer.Replace", args), nil
+	}
+	m.Ext["strconv.Unquote"] = func(m *Machine, pos token.Pos, recv Value, args []Value) (Value, error) {
+		if c, ok := concreteArgs(args); ok && len(c) == 1 {
+			u, err := strconv.Unquote(c[0])
+			if err != nil {
+				return Tuple{Lit(""), &Opaque{Kind: "error", ID: "strconv.Unquote: " + err.Error()}}, nil
+			}
+			return Tuple{Lit(u), NilV{}}, nil
+		}
+		return Tuple{unknownCall("strconv.Unquote", args), &Unknown{Why: "error of strconv.Unquote"}}, nil
+	}
+	m.Ext["strings.Count"] = func(m *Machine, pos token.Pos, recv Value, args []Value) (Value, error) {
+		if c, ok := concreteArgs(args); ok && len(c) == 2 {
+			return int64(strings.Count(c[0], c[1])), nil
+		}
+		return unknownCall("strings.Count", args), nil
+	}
 	for _, name := range []string{"sort.Strings", "slices.Sort"} {
 		name := name
 		m.Ext[name] = func(m *Machine, pos token.Pos, recv Value, args []Value) (Value, error) {
